@@ -58,6 +58,22 @@ CHECKS = {
             'are exported and checked by theory.check_proof with conclusion/hypotheses compared on shadows.',
             'Trusts vf/oracle_c17_naive.py (calibrated on hand-computed instances), icontract, the kernel checker for HOL proofs.',
             'DESIGN.md 2 C17'),
+    'C07': ('postcondition on the real printer under every printer setting: printed text re-parsed by the real parser and compared '
+            'on shadows; memo-table differential for history independence; library statements as realistic workload',
+            'Exploration: ~5k generated well-typed terms per quick run over the signature of theory real (operators in all argument '
+            'positions, binders, numerals, literals, overloaded constants at declared instances) x 12 printer settings, plus types, '
+            'sequents, exported proof items, and a slice (thorough: all) of the library statements; failing terms are minimised and '
+            'keyed by the disagreement between operator table and grammar that they exhibit.',
+            'Trusts vf/shadow.py alpha-equality; generator restricted to declared instances and parseable variable names.',
+            'DESIGN.md 2 C07'),
+    'C18': ('wrappers on eval of all registered verit_* macros (acceptance observed from ProofReconstruction too); independent Z3 '
+            'encoding + own evaluator decide whether the accepted clause follows from the premises; truth tables for end-to-end '
+            'propositional Alethe scripts',
+            'Exploration: correct template instances for 84 rules and near-miss mutations (literal dropped/added/negated/permuted, '
+            'premise shortened/lengthened, coefficients perturbed, wrong pivots, contexts changed); synthetic Alethe scripts over '
+            'satisfiable assumptions through the real validate(is_eval=True). No veriT binary: all steps synthetic.',
+            'Trusts vf/oracle_c18_sem.py (Z3 as counter-model finder, models re-evaluated when quantifier-free or finite).',
+            'DESIGN.md 2 C18'),
 }
 
 NOT_YET = {}
